@@ -173,12 +173,11 @@ func runC15(w *core.World, r *core.Report) {
 							}
 							use = "argument of " + core.CallName(t)
 						case *ssa.Store:
-							if _, isAlloc := t.Addr.(*ssa.Alloc); isAlloc {
-								continue
-							}
-							if ia, ok := t.Addr.(*ssa.IndexAddr); ok {
-								if _, isA := ia.X.(*ssa.Alloc); isA {
-									continue // varargs array for logging/formatting
+							// only stores into object state (fields, globals) count; writing a result into
+							// a local variable, array or result slice before the error test is harmless
+							if _, isField := t.Addr.(*ssa.FieldAddr); !isField {
+								if _, isGlobal := t.Addr.(*ssa.Global); !isGlobal {
+									continue
 								}
 							}
 							use = "stored"
